@@ -634,6 +634,16 @@ func intBindsGuard(info *types.Info, di *defIndex, e pathElem) string {
 			}
 		}
 	}
+	if atoms := andAtoms(cond); len(atoms) > 1 && !neg && strings.HasSuffix(e.Label, "?then") {
+		// a conjunction holds in its then-branch: one conjunct `class == IntBind` is enough
+		for _, a := range atoms {
+			if b, ok := unparen(a).(*ast.BinaryExpr); ok && b.Op == token.EQL &&
+				(objQName(usedObj(info, b.Y)) == "fast.IntBind" || objQName(usedObj(info, b.X)) == "fast.IntBind") {
+				return "ints"
+			}
+		}
+		return ""
+	}
 	b, ok := cond.(*ast.BinaryExpr)
 	if !ok || (b.Op != token.EQL && b.Op != token.NEQ) {
 		return ""
@@ -791,4 +801,118 @@ func ruleDepthOfEnvCalls(c *Ctx, short string, files []string, rule string) {
 	if n == 0 {
 		c.Ob(rule, short+"/"+strings.Join(files, ","), nil, false, "no frame-switching call found: anchor missing")
 	}
+}
+
+// ruleDepthLoops — A3 for closures that reach a variable's frame with a loop instead of a depth switch:
+//
+//	o := env; for i := 0; i < upn; i++ { o = o.Outer }; ... o.Ints[idx] ...
+//
+// where upn and idx come from the same compile-time variable descriptor. Every Ints/Vals access whose index belongs to that
+// variable must be made on the frame the loop computed (upn links up), not on the closure's own frame.
+func ruleDepthLoops(c *Ctx, short string, files []string, rule string) {
+	fdta := families(c, short)
+	ms := fdta.members
+	if len(files) > 0 {
+		ms = inFiles(c, ms, files...)
+	}
+	pk := c.P.Pkg(short)
+	info := pk.TypesInfo
+	n := 0
+	for _, m := range ms {
+		if m.UpnIdx >= 0 {
+			continue // judged by ruleDepth through its depth label
+		}
+		di := fdta.di[m.FD]
+		// loops `for i := 0; i < U; i++ { v = v.Outer }` with U captured from outside the closure
+		var upnObjs []types.Object
+		ast.Inspect(m.Lit.Body, func(nd ast.Node) bool {
+			f, ok := nd.(*ast.ForStmt)
+			if !ok || f.Cond == nil {
+				return true
+			}
+			cond, ok := unparen(f.Cond).(*ast.BinaryExpr)
+			if !ok || cond.Op != token.LSS || identOf(cond.Y) == nil {
+				return true
+			}
+			walks := false
+			for _, st := range f.Body.List {
+				if as, ok := st.(*ast.AssignStmt); ok && len(as.Rhs) == 1 {
+					if s, ok := unparen(as.Rhs[0]).(*ast.SelectorExpr); ok && s.Sel.Name == "Outer" && isEnvPtr(info.TypeOf(s.X)) {
+						walks = true
+					}
+				}
+			}
+			u := info.Uses[identOf(cond.Y)]
+			if walks && u != nil && !(u.Pos() > m.Lit.Pos() && u.Pos() < m.Lit.End()) {
+				if ce := chainEndsInField(info, di, cond.Y, 0); ce == "Upn" || strings.HasPrefix(ce, "param:") && strings.Contains(strings.ToLower(ce), "upn") {
+					upnObjs = append(upnObjs, u)
+				}
+			}
+			return true
+		})
+		for _, u := range upnObjs {
+			var root types.Object
+			ast.Inspect(m.Lit.Body, func(nd ast.Node) bool {
+				if id, ok := nd.(*ast.Ident); ok && info.Uses[id] == u && root == nil {
+					root = di.nearRoot(info, id, 0)
+				}
+				return true
+			})
+			if root == nil {
+				continue
+			}
+			want := dval{u: 1}
+			interpretClosure(info, di, m.Lit, u, func(access, E, idx ast.Expr, ints bool, d dval) {
+				if di.nearRoot(info, idx, 0) != root {
+					return
+				}
+				n++
+				c.Ob(rule, m.Key()+"/"+u.Name(), access, !d.unknown && d == want, fmt.Sprintf("slot of %s accessed on frame %s; the closure walks %s links up to reach its frame, so the access must be made there (%s)", root.Name(), d, u.Name(), want))
+			})
+		}
+	}
+	if n == 0 {
+		c.ObTrivial(rule+"-none", short+"/"+strings.Join(files, ","), nil, true, "no frame-walking loop with an access to judge in these files")
+	}
+}
+
+// nearRoot is rootOf restricted to field selections, conversions and calls without arguments:
+// `idx := bind.Desc.Index()` has near root bind, and `bind := c.DeclVar0("", nil, e)` stops there.
+func (di *defIndex) nearRoot(info *types.Info, e ast.Expr, depth int) types.Object {
+	if depth > 8 {
+		return nil
+	}
+	switch x := unparen(e).(type) {
+	case *ast.Ident:
+		o := info.Uses[x]
+		if o == nil {
+			o = info.Defs[x]
+		}
+		if o == nil {
+			return nil
+		}
+		if d := di.singleNonConst(o); d != nil {
+			if r := di.nearRoot(info, d, depth+1); r != nil {
+				return r
+			}
+		}
+		return o
+	case *ast.SelectorExpr:
+		if _, ok := info.Uses[identOf(x.X)].(*types.PkgName); ok {
+			return nil
+		}
+		return di.nearRoot(info, x.X, depth+1)
+	case *ast.CallExpr:
+		if tv, ok := info.Types[x.Fun]; ok && tv.IsType() && len(x.Args) == 1 {
+			return di.nearRoot(info, x.Args[0], depth+1)
+		}
+		if s, ok := unparen(x.Fun).(*ast.SelectorExpr); ok && len(x.Args) == 0 {
+			if _, isPkg := info.Uses[identOf(s.X)].(*types.PkgName); !isPkg {
+				return di.nearRoot(info, s.X, depth+1)
+			}
+		}
+	case *ast.StarExpr:
+		return di.nearRoot(info, x.X, depth+1)
+	}
+	return nil
 }
